@@ -343,7 +343,7 @@ def run_response(c):
     elif c.get('wrap') == 'voltage':
         H = lcapy.voltage(H)
     tv = np.linspace(0, float(Fraction(c['T'])), int(c['N']))
-    x = np.ones(len(tv)) if c['input'] == 'step' else tv.copy()
+    x = np.ones(len(tv)) if c['input'] == 'step' else (tv ** 2 if c['input'] == 'quad' else tv.copy())
     y = H.response(x, tv, method=c['method'])
     return {'y': [float(u) for u in y], 'cls': type(H).__name__}
 
